@@ -63,6 +63,20 @@ class FuncInfo:
         return self.cls is not None and any(isinstance(d, ast.Name) and d.id == "staticmethod" for d in self.node.decorator_list)
 
     @property
+    def opaque_decorators(self):
+        """decorators that change what calling the function means and that no engine models (functools.lru_cache,
+        functools.cache, numba.jit, contextmanager ...): everything except staticmethod / classmethod / property and the
+        registry decorators `<registry>.register(...)`"""
+        out = []
+        for d in self.node.decorator_list:
+            e = d.func if isinstance(d, ast.Call) else d
+            nm = e.id if isinstance(e, ast.Name) else (e.attr if isinstance(e, ast.Attribute) else "?")
+            if nm in ("staticmethod", "classmethod", "property", "cached_property", "register", "abstractmethod", "wraps", "overload", "final", "override"):
+                continue
+            out.append(nm)
+        return out
+
+    @property
     def is_property(self):
         """@property (or functools.cached_property): read as an attribute, evaluated by a call without arguments"""
         for d in self.node.decorator_list:
